@@ -519,6 +519,11 @@ def check_instant(env, t, tp, sp, narrow, out):
             v, b = val(env, f, {'xk': day, 'xn': day + 1, 'xd': t})
             if v is not want:
                 bad('%s with xk = %d, xn = %d (whole-day serials), xd = %s is %r' % (f, day, day + 1, t.isoformat(), v), want, v, b)
+    if t.second % 10 == 0 or t.microsecond:
+        # whatever the serial is (also before 1 March 1900): N and DATEVALUE show the same one
+        v, b = val(env, 'N(xd)', {'xd': t})
+        if not near_num(v, s):
+            bad('N(xd) = %r but DATEVALUE(xd) = %r with xd = %s: two serials for one date-time' % (v, s, t.isoformat()), s, v, b)
     v, b = val(env, 'xd+0', {'xd': t})
     if not near_dt(v, t):
         bad('xd+0 with xd = %s does not return the same date-time (0.5 ms)' % t.isoformat(), enc(t), v, b)
